@@ -38,7 +38,7 @@ func runC05(c *eng.Ctx) {
 	guardedBy(r1, pkgQueue, "TaskQueue", "items", "m")
 
 	// ---- R2 inserted task is in the published slice
-	r2 := c.Rule("C05.R2", "B:path+flags", "a function that takes a task and stores a slice into items has put the task into that slice on every flag-feasible path to the store; positive-length make() flows into items only there", 4)
+	r2 := c.Rule("C05.R2", "B:path+flags", "a function that takes a task and stores a slice into items has put the task into that slice on every flag-feasible path to the store; positive-length make() flows into items only there; each public insertion API reaches such a checked store with its task", 5)
 	if items == nil || taskIface == nil {
 		r2.Unknown("anchor:TaskQueue.items", token.NoPos, "field or task.Task not found")
 	} else {
@@ -140,6 +140,29 @@ func runC05(c *eng.Ctx) {
 			}
 		}
 	}
+
+	// R2 vacuity guard by anchors (robust to refactoring): every public insertion API hands its task, through calls
+	// that pass the parameter along, to a function whose store to items was checked above.
+	if items != nil && taskIface != nil {
+		checked := map[*eng.Func]bool{}
+		for _, o := range r2.Obs {
+			if f := p.Func(o.Construct); f != nil && o.Status == eng.Discharged {
+				checked[f] = true
+			}
+		}
+		for _, name := range []string{"AddFirst", "AddLast", "AddAfter", "AddBefore"} {
+			f := r2.NeedFunc(pkgQueue + ".(*TaskQueue)." + name)
+			if f == nil {
+				continue
+			}
+			ok := taskReachesStore(p, f, paramOfType(f, isTask), checked, 4, map[*eng.Func]bool{})
+			r2.Check(ok, f.Key+" reaches a checked store", f.Decl.Pos(), "the task parameter is passed on to a function whose store to items was checked", "the inserted task is not handed to any function that stores it into items: the insertion is lost")
+		}
+	}
+
+	// ---- R7 sentinel arithmetic
+	r7 := c.Rule("C05.R7", "H:idiom+control-dependence", "a 'not found' index (-1 from slices.Index*/an index search, or a -1 initialised local) is tested before arithmetic is applied to it (AddAfter/AddBefore/Remove with an absent id must leave the queue unchanged)", 1)
+	runSentinelRule(c, r7, pkgQueue)
 
 	// ---- R3 result application
 	r3 := c.Rule("C05.R3", "B:order+control-dependence", "worker applies handler results in one withLock section: addAfter desc, remove once under Status==Success, addFirst desc, addLast asc; only for Success/Keep", 5)
@@ -758,4 +781,206 @@ func returnsElem(p *eng.Prog, f *eng.Func, items *types.Var, ixOK func(ast.Expr)
 		return true
 	})
 	return ok && n > 0
+}
+
+// taskReachesStore: parameter prm of f flows, through calls that pass it along (also from inside literals), to a
+// function in checked.
+func taskReachesStore(p *eng.Prog, f *eng.Func, prm *types.Var, checked map[*eng.Func]bool, depth int, seen map[*eng.Func]bool) bool {
+	if f == nil || prm == nil || depth < 0 || seen[f] {
+		return false
+	}
+	seen[f] = true
+	if checked[f] {
+		return true
+	}
+	info := f.Pkg.TypesInfo
+	found := false
+	ast.Inspect(f.Decl.Body, func(n ast.Node) bool {
+		call, ok := n.(*ast.CallExpr)
+		if !ok || found {
+			return !found
+		}
+		fn, ok := eng.CalleeOf(info, call).(*types.Func)
+		if !ok {
+			return true
+		}
+		cf := p.FuncOf(fn)
+		if cf == nil {
+			return true
+		}
+		for i, a := range call.Args {
+			if eng.SelObj(info, a) == prm {
+				sig := fn.Type().(*types.Signature)
+				if i < sig.Params().Len() {
+					if taskReachesStore(p, cf, sig.Params().At(i), checked, depth-1, seen) {
+						found = true
+					}
+				}
+			}
+		}
+		return true
+	})
+	return found
+}
+
+var sentinelFuncs = map[string]bool{
+	"slices.Index": true, "slices.IndexFunc": true, "strings.Index": true, "strings.IndexByte": true, "strings.IndexRune": true,
+	"strings.LastIndex": true, "strings.IndexAny": true, "strings.IndexFunc": true, "bytes.Index": true, "bytes.IndexByte": true,
+}
+
+// isSentinelCall: the call may return -1 for "not found": a library index search, or a repository function all of
+// whose returns are such calls, sentinel variables or the constant -1.
+func isSentinelCall(p *eng.Prog, info *types.Info, e ast.Expr, depth int) bool {
+	call, ok := ast.Unparen(e).(*ast.CallExpr)
+	if !ok {
+		return false
+	}
+	fn, ok := eng.CalleeOf(info, call).(*types.Func)
+	if !ok {
+		return false
+	}
+	if sentinelFuncs[fn.FullName()] {
+		return true
+	}
+	cf := p.FuncOf(fn)
+	if cf == nil || cf.Decl.Body == nil || depth <= 0 {
+		return false
+	}
+	sig := fn.Type().(*types.Signature)
+	if sig.Results().Len() != 1 {
+		return false
+	}
+	if b, ok := sig.Results().At(0).Type().Underlying().(*types.Basic); !ok || b.Info()&types.IsInteger == 0 {
+		return false
+	}
+	any := false
+	cinfo := cf.Pkg.TypesInfo
+	eng.InspectNoLit(cf.Decl.Body, func(n ast.Node) bool {
+		r, isR := n.(*ast.ReturnStmt)
+		if !isR || len(r.Results) != 1 {
+			return true
+		}
+		if v, isC := eng.ConstInt(cinfo, r.Results[0]); isC && v == -1 {
+			any = true
+		}
+		if isSentinelCall(p, cinfo, r.Results[0], depth-1) {
+			any = true
+		}
+		return true
+	})
+	return any
+}
+
+func runSentinelRule(c *eng.Ctx, r *eng.RuleCtx, pkg string) {
+	p := c.P
+	n := 0
+	for _, f := range funcsOfPkg(p, pkg) {
+		if f.Decl.Body == nil {
+			continue
+		}
+		info := f.Pkg.TypesInfo
+		// sentinel variables: assigned from a sentinel call or from the constant -1
+		sent := map[*types.Var]bool{}
+		ast.Inspect(f.Decl.Body, func(m ast.Node) bool {
+			as, ok := m.(*ast.AssignStmt)
+			if !ok || len(as.Lhs) != len(as.Rhs) {
+				return true
+			}
+			for i, rhs := range as.Rhs {
+				v, isV := eng.SelObj(info, as.Lhs[i]).(*types.Var)
+				if !isV || v.IsField() {
+					continue
+				}
+				if cv, isC := eng.ConstInt(info, rhs); (isC && cv == -1) || isSentinelCall(p, info, rhs, 2) {
+					sent[v] = true
+				}
+			}
+			return true
+		})
+		bodies := []struct {
+			g    *eng.Graph
+			body *ast.BlockStmt
+		}{{p.GraphOf(f), f.Decl.Body}}
+		for _, l := range f.Lits {
+			bodies = append(bodies, struct {
+				g    *eng.Graph
+				body *ast.BlockStmt
+			}{p.GraphOfLit(l), l.Lit.Body})
+		}
+		for _, b := range bodies {
+			g := b.g
+			eng.InspectNoLit(b.body, func(m ast.Node) bool {
+				be, ok := m.(*ast.BinaryExpr)
+				if !ok || (be.Op != token.ADD && be.Op != token.SUB && be.Op != token.MUL) {
+					return true
+				}
+				for _, opd := range []ast.Expr{be.X, be.Y} {
+					if isSentinelCall(p, info, opd, 2) {
+						n++
+						c.Touch(f)
+						r.Bad(f.Key+" arithmetic on a search result", be.Pos(), fmt.Sprintf("`%s` applies arithmetic to an index search result before testing it for -1: for an absent element the position becomes valid again (e.g. -1+1 = 0) and the operation is carried out at the wrong place instead of being a no-op", eng.Short(p.Fset, be)))
+						continue
+					}
+					v, isV := eng.SelObj(info, opd).(*types.Var)
+					if !isV || !sent[v] {
+						continue
+					}
+					n++
+					c.Touch(f)
+					node := g.NodeOf(be)
+					guard := g.FactEdge(func(fc eng.Fact) bool {
+						if fc.Y != nil {
+							return false
+						}
+						cmp, isB := ast.Unparen(fc.X).(*ast.BinaryExpr)
+						if !isB {
+							return false
+						}
+						x, y := cmp.X, cmp.Y
+						op := cmp.Op
+						if eng.SelObj(info, y) == v { // constant on the left: flip
+							x, y = y, x
+							switch op {
+							case token.LSS:
+								op = token.GTR
+							case token.GTR:
+								op = token.LSS
+							case token.LEQ:
+								op = token.GEQ
+							case token.GEQ:
+								op = token.LEQ
+							}
+						}
+						if eng.SelObj(info, x) != v {
+							return false
+						}
+						cv, isC := eng.ConstInt(info, y)
+						if !isC {
+							return false
+						}
+						switch {
+						case op == token.NEQ && cv == -1:
+							return fc.Pos
+						case op == token.EQL && cv == -1:
+							return !fc.Pos
+						case op == token.GEQ && cv == 0, op == token.GTR && cv == -1:
+							return fc.Pos
+						case op == token.LSS && cv == 0, op == token.LEQ && cv == -1:
+							return !fc.Pos
+						}
+						return false
+					})
+					if node != nil && g.OnlyVia(node, nil, guard) {
+						r.Ok(f.Key+" "+v.Name()+" tested before arithmetic", be.Pos(), fmt.Sprintf("`%s` is reachable only after %s was tested against -1", eng.Short(p.Fset, be), v.Name()))
+					} else {
+						r.Bad(f.Key+" "+v.Name()+" arithmetic before test", be.Pos(), fmt.Sprintf("`%s` uses the 'not found' index %s in arithmetic without a dominating test against -1", eng.Short(p.Fset, be), v.Name()))
+					}
+				}
+				return true
+			})
+		}
+	}
+	if n == 0 {
+		r.Ok(pkg+" no index-search arithmetic", token.NoPos, "no arithmetic on an index search result in the package")
+	}
 }
